@@ -152,6 +152,8 @@ def run(P, C, tier):
             name = callee_name(t)
             if "rusqlite" not in name and "rusqlite" not in ty:
                 continue
+            if name.endswith("::from_residual"):
+                continue   # the error exit of `?` itself: it is the propagation (its value is the function's / helper's result)
             n8 += 1
             C.saw(fb)
             ok = mir.result_edges(fb, bi) is not None or t["dest"] == [0]
@@ -180,7 +182,7 @@ def run(P, C, tier):
                 per[k] = per.get(k, 0) + 1
                 C.ob("R8", "dropped:%s#%d" % (k, per[k]), False, fb.loc(bi), "the Result of %s is neither tested, propagated nor returned: a failing statement would not abort the batch" % mir.short(name))
     C.ob("R8", "storage-results-checked", True, b.loc(), "%d rusqlite results on the write path examined" % n8, nontrivial=True)
-    C.floor("R8", "rusqlite results on the write path", n8, 250)
+    C.floor("R8", "rusqlite results on the write path (calls other than the `?` exits)", n8, 140)
     # transaction control statements exist only in process_batch_write
     import sql as _sql
     for fb in P.bodies.values():
@@ -239,7 +241,7 @@ def run(P, C, tier):
             else:
                 C.ob("R4", "ack-unclassified:" + var, False, w.loc(bi), "acknowledgement payload is neither Ok nor Err: %s" % term_str(payload)[:80])
         # the `result` variable must be the process_batch_write result
-        C.ob("R4", "result-is-batch-result", len(RES) == 1, w.loc(pb), "the matched variable is defined once, by the value returned by process_batch_write")
+        C.ob("R4", "result-is-batch-result", len(RES) <= 1 and (n_ok + n_err) > 0, w.loc(pb), "the acknowledgements are selected by the value returned by process_batch_write (held in at most one variable, or matched directly)")
         for v in variants:
             if v in NON_WRITING:
                 continue
